@@ -36,6 +36,28 @@ func stripAssert(v ssa.Value) ssa.Value {
 // fieldStores: constant boolean stores `x.f = b` on the struct value v points to, that dominate instruction at.
 func (c *Ctx) boolFieldStores(fn *ssa.Function, obj ssa.Value, at ssa.Instruction) map[string]bool {
 	res := map[string]bool{}
+	// the object is built by a helper: start from what the helper stores into the value it returns
+	if call, ok := obj.(*ssa.Call); ok {
+		if g := call.Call.StaticCallee(); g != nil && c.P.InModule(g) && g != fn && g.Blocks != nil {
+			first := true
+			for _, r := range returnsOf(g) {
+				rv := retValue(r, 0)
+				sub := c.boolFieldStores(g, rv, r)
+				if first {
+					for k, v := range sub {
+						res[k] = v
+					}
+					first = false
+					continue
+				}
+				for k, v := range res {
+					if sv, ok := sub[k]; !ok || sv != v {
+						delete(res, k)
+					}
+				}
+			}
+		}
+	}
 	for _, b := range fn.Blocks {
 		for _, in := range b.Instrs {
 			st, ok := in.(*ssa.Store)
@@ -218,8 +240,14 @@ func (c *Ctx) EXT(rule string) []report.Obligation {
 			baseArg := rp[0].Common().Args[1]
 			fromDir := false
 			if ci, ok := baseArg.(*ssa.Call); ok && ci.Call.IsInvoke() && ci.Call.Method.Name() == "Dir" {
-				if len(ci.Call.Args) == 1 && ci.Call.Args[0] == ssa.Value(f.Params[4]) {
-					fromDir = true
+				// the argument of Dir is the path that was handed to the resource loader's Load (the extended file)
+				if len(ci.Call.Args) == 1 {
+					for _, lc := range callSites(f, func(com *ssa.CallCommon) bool { return com.IsInvoke() && com.Method.Name() == "Load" }) {
+						la := lc.Common().Args
+						if len(la) >= 2 && (la[1] == ci.Call.Args[0] || sameFieldLoad(la[1], ci.Call.Args[0])) {
+							fromDir = true
+						}
+					}
 				}
 			}
 			out = append(out, verdict(fromDir, rule+"-5", "getExtendsBaseFromFile :: paths resolved against the extended file's directory", c.P.InstrPos(rp[0]),
@@ -323,8 +351,29 @@ func (c *Ctx) INC(rule string) []report.Obligation {
 	// INC-4: options of the nested load
 	opts := lm[0].Common().Args[2]
 	isClone := false
-	if cl, ok := opts.(*ssa.Call); ok && c.calleeID(&cl.Call) == "loader.(*Options).clone" && cl.Call.Args[0] == ssa.Value(f.Params[4]) {
+	isCloneOf := func(g *ssa.Function, v ssa.Value) bool {
+		cl, ok := v.(*ssa.Call)
+		return ok && c.calleeID(&cl.Call) == "loader.(*Options).clone" && sameParam(cl.Call.Args[0], paramByType(g, "*Options"))
+	}
+	if isCloneOf(f, opts) {
 		isClone = true
+	} else if hc, ok := opts.(*ssa.Call); ok {
+		// built by a helper that receives the caller's options and returns a clone of them
+		if g := hc.Call.StaticCallee(); g != nil && c.P.InModule(g) && g.Blocks != nil {
+			passes := false
+			for i, a := range hc.Call.Args {
+				if sameParam(a, paramByType(f, "*Options")) && i < len(g.Params) && g.Params[i] == paramByType(g, "*Options") {
+					passes = true
+				}
+			}
+			all := passes
+			for _, r := range returnsOf(g) {
+				if !isCloneOf(g, retValue(r, 0)) {
+					all = false
+				}
+			}
+			isClone = all
+		}
 	}
 	out = append(out, verdict(isClone, rule+"-4", "ApplyInclude :: nested options are a clone", c.P.InstrPos(lm[0]),
 		"the nested load works on options.clone()", "the nested load mutates the caller's options"))
@@ -354,7 +403,7 @@ func (c *Ctx) INC(rule string) []report.Obligation {
 				}
 				recv, arg := mc.Call.Args[0], mc.Call.Args[1]
 				cc, ok := recv.(*ssa.Call)
-				if !ok || c.calleeID(&cc.Call) != "types.(Mapping).Clone" || stripAssert(cc.Call.Args[0]) != ssa.Value(f.Params[2]) {
+				if !ok || c.calleeID(&cc.Call) != "types.(Mapping).Clone" || !sameParam(stripAssert(cc.Call.Args[0]), paramByType(f, "Mapping")) {
 					envWhy = "the receiver of Merge is not a fresh Clone of the parent environment: the parent environment is mutated, or the env-file values take precedence"
 					continue
 				}
@@ -375,7 +424,7 @@ func (c *Ctx) INC(rule string) []report.Obligation {
 	for _, b := range f.Blocks {
 		for _, in := range b.Instrs {
 			if ci, ok := in.(ssa.CallInstruction); ok {
-				if bi, ok := ci.Common().Value.(*ssa.Builtin); ok && bi.Name() == "delete" && ci.Common().Args[0] == ssa.Value(f.Params[3]) {
+				if bi, ok := ci.Common().Value.(*ssa.Builtin); ok && bi.Name() == "delete" && sameParam(ci.Common().Args[0], paramByType(f, "map[string]any")) {
 					if k, _ := prog.ConstString(ci.Common().Args[1]); k == "include" {
 						del = in
 					}
@@ -393,7 +442,7 @@ func (c *Ctx) INC(rule string) []report.Obligation {
 		"every successful return is dominated by delete(model, \"include\")", "the model keeps its `include` attribute after the resources were imported"))
 	// import of the loaded model
 	ir := c.callsTo(f, "loader.importResources")
-	okImp := len(ir) == 1 && prog.InstrDominates(lm[0], ir[0]) && c.derivedFrom(ir[0].Common().Args[0], lm[0].(ssa.Value), 3) && ir[0].Common().Args[1] == ssa.Value(f.Params[3])
+	okImp := len(ir) == 1 && prog.InstrDominates(lm[0], ir[0]) && c.derivedFrom(ir[0].Common().Args[0], lm[0].(ssa.Value), 3) && sameParam(ir[0].Common().Args[1], paramByType(f, "map[string]any"))
 	out = append(out, verdict(okImp, rule+"-5", "ApplyInclude :: loaded model imported into the including model", c.P.Pos(f.Pos()),
 		"importResources(result of the nested load, model)", "the nested model is not imported into the including model"))
 	return out
@@ -401,3 +450,17 @@ func (c *Ctx) INC(rule string) []report.Obligation {
 
 var _ = token.ADD
 var _ = report.Info
+
+// sameFieldLoad: both values are loads of the same field of the same struct value.
+func sameFieldLoad(a, b ssa.Value) bool {
+	la, ok1 := a.(*ssa.UnOp)
+	lb, ok2 := b.(*ssa.UnOp)
+	if !ok1 || !ok2 {
+		fa, okA := a.(*ssa.Field)
+		fb, okB := b.(*ssa.Field)
+		return okA && okB && fa.X == fb.X && fa.Field == fb.Field
+	}
+	fa, ok1 := la.X.(*ssa.FieldAddr)
+	fb, ok2 := lb.X.(*ssa.FieldAddr)
+	return ok1 && ok2 && fa.X == fb.X && fa.Field == fb.Field
+}
